@@ -69,7 +69,7 @@ prop(
     level_text="Theorems on the decoder model for every frame header, dictionary registry and buffer state: a frame naming an unregistered dictionary is refused with DictNotProvided before any block is decoded (missing_dict_error); with the dictionary registered reset seeds exactly entropy tables, repeat offsets and content (init_from_dict_state); a header without dictionary id starts from the empty state whatever is registered (no_dict_without_id; later frames: C07 reuse_eq_fresh); offsets beyond dictionary+output and dictionary reach-back after more than a window of output are rejected. Reaching into the dictionary is byte-for-byte the RFC copy from dict++output for every buffer state, offset >= 1 and match length — inside the output (overlapping included), inside the dictionary, straddling the boundary at every alignment (repeat_eq_matchCopy, repeat_ok_matchCopy, repeat_accepts_iff, repeat_shape); the slice/chunk statements of the Rust code (extend_from_within, repeat_in_chunks, the re-entry with offset = buffer length) compute the same (repeat_eq_rust_statements); total_output_counter never over-counts, so the window test never refuses a reach-back the RFC allows (repeat_totalOut_le, totalOut_le_produced, dict_copy_of_valid_frame); a whole block's sequence execution refines the RFC executor with dictionary, window tests and offset history, in every buffer state that keeps two invariants which reset, every block and every drain-to-window preserve (executeSequences_refines_dict, invariants_reset, decodeOneBlock_keeps_invariants, invariants_drain_to_window). Tie to the code: engine dict (reference trainer dictionaries, libzstd dictionary frames with/without id, several dictionaries, synthetic frames straddling the dictionary boundary at every alignment; model replays every operation), engine reuse (dictionary leaks).",
     engines=[{"name": "dict"}, {"name": "reuse"}],
     also_reports={"dict": ["C01", "C06", "C08", "C10"]},
-    modelled="dictionary selection (resetCore/applyDictChoice/forceDict) and DecodeBuffer::repeat_from_dict on the abstract buffer mirror the Rust; the dictionary FILE parser in the executable model is the Spec parser (strict) — ruzstd's Dictionary::decode_dict is compared with it on every trained dictionary",
+    modelled="dictionary selection (resetCore/applyDictChoice/forceDict) and DecodeBuffer::repeat_from_dict on the abstract buffer mirror the Rust; the dictionary FILE parser of the executable model is the mirror of Dictionary::decode_dict (Blk.decodeDict, Model/FrameFaithful.lean: same build_decoder functions as the block decoder, same leniencies), compared with the real one on every dictionary the engines register (adddict lines)",
     assumptions=["libzstd (zstd crate) as referee for dictionary frames; note libzstd lets matches reach into the dictionary header bytes, the harness counts a frame as valid only if its RFC executor accepts it too"],
 )
 
@@ -80,7 +80,7 @@ prop(
     # the decoder is only as right as its components: a wrong bit read, FSE/Huffman table or window copy found by a
     # component engine is a violation of C01 as well
     also_reports={"bits": ["C12"], "fse": ["C12"], "huf": ["C13"], "ring": ["C04"]},
-    modelled="frame/block plumbing, sequence execution and the decode buffer (abstract content) are hand-written mirrors of the Rust; the frame-level executable model decodes literals/sequences through the Spec functions, while Model/BlockDecode.lean is the FAITHFUL block decoder (real literals-header parser, Huffman decoder, FSE tables, reversed bit reader, sequence loop: every leniency and error variant, state kept on error paths) compared block by block with the real code on valid and deliberately broken blocks (engine blk)",
+    modelled="frame/block plumbing, sequence execution and the decode buffer (abstract content) are hand-written mirrors of the Rust; the frame-level model is parametric in the block decoder (class BlockDec); the executable model behind the dec request lines is instance B = the FAITHFUL block decoder Model/BlockDecode.lean (real literals-header parser, Huffman decoder, FSE tables, reversed bit reader, sequence loop: every leniency and error variant, state kept on error paths), so model = code is checked on valid AND malformed frames (same error variant family, same state left behind; engine dec: directed + mutated + structure-aware hostile frames) and block by block (engine blk); the frame-level theorems are proved for every block decoder satisfying BlockContract / NoFaultContract / RefinesSpec, and Proofs/FrameFaithful.lean proves all three contracts for instance B without hypotheses (from Proofs/BlockNoFault.lean and Proofs/BlkLitFull.lean): the model in the theorems IS the model the engine compares with the code (instance A, the Spec stand-in, also satisfies them: Proofs/FrameDecoderStandIn.lean)",
     assumptions=["Zstd.Spec is a faithful transcription of RFC 8878 (validated against libzstd 1.5.7 frames on every run, not proved against the English text)"],
 )
 
@@ -222,7 +222,7 @@ prop(
 _FRAME_MODELLED = ("FrameDecoder / FrameDecoderState / BlockDecoder / execute_sequences / DecodeBuffer (abstract content) / "
                    "StreamingDecoder::read are hand-written statement-by-statement mirrors of the Rust (Zstd/Model/FrameDecoder.lean); "
                    "constants and guard operators (MAX_BLOCK_SIZE, block-size guard, window guards, magic numbers) are extracted from the source text on every run; "
-                   "the mirror is tied to the code by engine dec (real FrameDecoder/StreamingDecoder under generated driver programs, every observable compared after every operation)")
+                   "the mirror is tied to the code by engine dec (real FrameDecoder/StreamingDecoder under generated driver programs, every observable compared after every operation, on valid, truncated, mutated and structure-aware hostile frames: the block decoder behind the request lines is the faithful Blk.decompressBlock = instance B of the BlockDec parameter, and the theorems hold for every instance satisfying BlockContract, which Proofs/FrameFaithful.lean proves for instance B without hypotheses)")
 
 prop(
     "C05",
